@@ -124,6 +124,11 @@ def conn_valid(m, kinds, q, c):
         return (p2 == BP) == (p == BP)
     k, oid = c[1], c[2]
     if k == "noconn":
+        # NOT generated: a no-connect on a bundle-valued port of an InstanceArray. The elaborator broadcasts ONE copied
+        # BundleInstance to all elements (shorting them) — a defect of the final-mapping semantics (C01/C05 class, it
+        # needs no history), see notes/C04.md.
+        if kinds[i] > 0 and p == BP:
+            return False
         return q not in referenced(m)
     if p == BP:
         return k in ("bundle", "anon")
@@ -158,7 +163,7 @@ def candidates(m, kinds, q, allow_ref=True, allow_nc=True):
         out += [["obj", k] for k in (0, 1, 10, 11, 12, 20, 21)]
         if kinds[i] == 2:
             out.append(["obj", 2])
-    if allow_nc and q not in referenced(m):
+    if allow_nc and q not in referenced(m) and not (kinds[i] > 0 and p == BP):
         out += [["obj", k] for k in BY_KIND["noconn"]]
     if allow_ref:
         for j in range(len(kinds)):
